@@ -11,3 +11,6 @@ import FuraxProofs.Props.C09
 #print axioms Furax.C09.ctor_fft_admissible
 #print axioms Furax.C09.ctor_rejects_small_fft
 #print axioms Furax.C09.ctor_rejects_examples
+#print axioms Furax.C09.dense_entry_correct
+#print axioms Furax.C09.dense_correct
+#print axioms Furax.C09.dense_symmetric
